@@ -96,6 +96,8 @@ fn snapshot(root: &Path, skip: &Path, out: &mut Tree) {
         for e in rd.flatten() {
             let p = e.path();
             if p == skip {
+                // what is inside the destination is the writer's business, the destination itself must stay
+                out.insert(p.clone(), None);
                 continue;
             }
             let md = match std::fs::symlink_metadata(&p) {
@@ -278,6 +280,12 @@ fn run_in_jail(scn: &Scn, dest: &Path, rep: &mut ChildReport) {
                     ..Default::default()
                 }));
             }
+            // half of the sessions start with an EMPTY destination (a failed object is then its only content),
+            // the others with what earlier sessions left there
+            if (rep.sessions + *outcome as u64) % 2 == 0 {
+                std::fs::remove_dir_all(dest).ok();
+                std::fs::create_dir_all(dest).ok();
+            }
             let builder = match flute::receiver::writer::ObjectWriterFSBuilder::new(dest, scn.md5_check) {
                 Ok(b) => Rc::new(b),
                 Err(_) => {
@@ -356,6 +364,11 @@ fn run_in_jail(scn: &Scn, dest: &Path, rep: &mut ChildReport) {
                 dirs.sort();
                 for d in dirs.iter().rev() {
                     std::fs::remove_dir(d).ok();
+                }
+                let mut gone: Vec<&PathBuf> = before.iter().filter(|(k, v)| v.is_none() && !after.contains_key(*k)).map(|(k, _)| k).collect();
+                gone.sort();
+                for d in gone {
+                    std::fs::create_dir_all(d).ok();
                 }
                 for (k, v) in &before {
                     if let Some(bytes) = v {
